@@ -177,9 +177,14 @@ def xorshift32(s):
 
 
 def fill_stream(n, seed):
-    s = seed if seed else 1
+    s = (seed if seed else 1) & 0xFFFFFFFF
     out = bytearray(n)
+    M = 0xFFFFFFFF
     for i in range(n):
-        s = xorshift32(s)
+        if not s:
+            s = 0x9E3779B9
+        s ^= (s << 13) & M
+        s ^= s >> 17
+        s ^= (s << 5) & M
         out[i] = (s >> 11) & 0xFF
     return bytes(out)
